@@ -86,6 +86,17 @@ def base_images(k=0):
             img.additional_variants = ["Server"]
         im.add(variant, arch, img)
         imgs.append(img)
+    # a second object with the same identity and the same checksums as image 2 (the same unified DVD listed under
+    # another variant, as a loaded manifest represents it), filed in a cell that is written earlier
+    twin = Image(im)
+    src = imgs[2]
+    for a in ("mtime", "size", "volume_id", "type", "format", "arch", "disc_number", "disc_count", "implant_md5", "bootable", "subvariant", "unified"):
+        setattr(twin, a, getattr(src, a))
+    twin.path = "Server/aarch64/iso/twin"
+    twin.checksums = dict(src.checksums)
+    twin.additional_variants = list(src.additional_variants)
+    im.add("Server", "aarch64", twin)
+    imgs.append(twin)
     return im, imgs
 
 
@@ -390,7 +401,7 @@ def jobs(tier, seed):
         add("composeinfo", "v:" + uid, VARIANT_FIELDS if uid != "Server-SAT" else VARIANT_FIELDS[:1], ks)
     add("composeinfo", "r:Server-SAT", [f for f in RELEASE_FIELDS if f[0] != "is_layered"], ks)
     add("images", "compose", [f for f in COMPOSE_FIELDS if f[0] not in ("final",)], ks)
-    for i in (0, 1, 2):
+    for i in (0, 1, 2, 3):
         add("images", "img:%d" % i, IMAGE_FIELDS, ks)
     for fmt in ("rpms", "modules", "extra_files"):
         add(fmt, "compose", COMPOSE_FIELDS, ks)
